@@ -851,7 +851,7 @@ impl QueryParser {
                                 }
                                 Rule::string => {
                                     let pair = val.into_inner().next().unwrap();
-                                    let value = pair.as_str().replace("\\\"", "\"");
+                                    let value = super::decode_string_literal(pair.as_str());
                                     parameters.fulltext_search = Some(FieldValue::Value(ParamValue::String(value.to_string())));
                                 }
                                 _=> unreachable!()
@@ -1172,7 +1172,7 @@ impl QueryParser {
             }
             Rule::string => {
                 let pair = value_pair.into_inner().next().unwrap();
-                let value = pair.as_str().replace("\\\"", "\"");
+                let value = super::decode_string_literal(pair.as_str());
                 FieldValue::Value(ParamValue::String(value))
             }
             Rule::variable => {
